@@ -99,3 +99,30 @@ Definition auth (i : authin) : res authout :=
     if negb (is_digits nonce) then Err EBadNonce else
     Ok (AuthOut addr (firstn (a_argc i - 1) (skipn 3 args)) nonce)
   end.
+
+(* ---- the older request format -------------------------------------------------------------- *)
+(* core/auth_deprecated.go, CheckSign (kept "for backward compatibility", exported): the older request format - method
+   arguments, then the keys, then the signatures; EVERY presented key must carry a valid ed25519 signature over function
+   name, arguments and keys (no blank signatures, no other key types); then the access-control service *)
+Fixpoint validate_all (kis : list (option keyinfo)) (sigs : list sigv) (msg : list N) : bool :=
+  match kis, sigs with
+  | k :: kr, sg :: gr => match k with Some ki => sig_valid ki KEd msg sg | None => false end && validate_all kr gr msg
+  | [], _ => true
+  | _, [] => false
+  end.
+
+Definition cs_margs (i : authin) := firstn (a_argc i - 1) (a_args i).
+Definition cs_auth (i : authin) := skipn (a_argc i - 1) (a_args i).
+Definition cs_signers (i : authin) : nat := (length (cs_auth i) / 2)%nat.
+Definition cs_keyargs (i : authin) := firstn (cs_signers i) (cs_auth i).
+Definition cs_msg (i : authin) := a_fn i ++ concat (cs_margs i ++ cs_keyargs i).
+Definition cs_kis (i : authin) := List.map (lookup_key (a_keys i)) (cs_keyargs i).
+
+Definition check_sign (i : authin) : res N :=
+  if (cs_signers i =? 0)%nat then Err ENotSigned else
+  if negb (validate_all (cs_kis i) (a_sigs i) (cs_msg i)) then Err EBadSig else
+  match a_acl i with
+  | AclFail => Err EAcl
+  | AclOk addr black grey _ _ => if black then Err EBlack else if grey then Err EGrey else Ok addr
+  end.
+
